@@ -90,6 +90,18 @@ def verify(ctx, entry, case, u, expected_path, has_auth, spliced=None):
     if got != expected_path:
         ctx.fail("path_mismatch", case, f"{entry}: raw_path={got!r} expected {expected_path!r}", got=got, expected=expected_path, _spliced=spliced)
         return
+    # "however produced" includes COPIES: a pickled / copied URL restores the stored parts, which must be the normalised ones
+    if has_auth and ctx.evaluations % 3 == 0:
+        import copy
+        import pickle
+
+        for cname, mk in (("pickle", lambda: pickle.loads(pickle.dumps(u))), ("copy", lambda: copy.copy(u)), ("pickle0", lambda: pickle.loads(pickle.dumps(u, protocol=0)))):
+            cu = guarded(mk)
+            cp = cu if is_exc(cu) else guarded(lambda: cu.raw_path)
+            if is_exc(cp) or cp != got:
+                ctx.fail("copy_path_differs", dict(case, copy=cname), f"{entry}: raw_path of a {cname} copy is {cp!r}, the original says {got!r}")
+                return
+        ctx.count("copies_checked")
     # idempotence: a second pass changes nothing
     from yarl import URL
 
